@@ -21,6 +21,7 @@ import time
 
 VERIF = os.path.dirname(os.path.dirname(os.path.abspath(__file__)))
 PY = "/venv/bin/python"
+BASE = 0      # --base: offset of the scratch directory numbers (two instances side by side)
 
 
 def sh(cmd, cwd=None, env=None, timeout=3600):
@@ -43,7 +44,7 @@ def reset(tree):
 
 def one(k, sid, src, tier, extra_checks):
     prop, name = sid.split("-")
-    vs, wt = f"/tmp/vs{k}", f"/tmp/wts{k}"
+    vs, wt = f"/tmp/vs{BASE + k}", f"/tmp/wts{BASE + k}"
     dest = os.path.join(VERIF, "seeded", sid)
     os.makedirs(dest, exist_ok=True)
     patch, demo = os.path.join(dest, "patch.diff"), os.path.join(dest, "demo.py")
@@ -113,7 +114,10 @@ def main():
     ap.add_argument("--tier", default="quick")
     ap.add_argument("--checks", default="")
     ap.add_argument("--fresh", action="store_true", help="re-copy /verif into the scratch copies")
+    ap.add_argument("--base", type=int, default=0)
     a = ap.parse_args()
+    global BASE
+    BASE = a.base
     ids = list(a.ids)
     if a.all:
         for n in a.all.split(","):
@@ -125,7 +129,7 @@ def main():
     lock = threading.Lock()
 
     def worker(k):
-        vs, wt = f"/tmp/vs{k}", f"/tmp/wts{k}"
+        vs, wt = f"/tmp/vs{BASE + k}", f"/tmp/wts{BASE + k}"
         if a.fresh or not os.path.isdir(vs):
             sh(f"mkdir -p {vs} && rsync -a --delete --exclude .git --exclude seeded --exclude replays {VERIF}/ {vs}/")
         if not os.path.isdir(wt):
